@@ -298,3 +298,55 @@ func TestVFC14FilterListSyscalls(t *testing.T) {
 		vfC14.Nontrivial(fmt.Sprintf("filterlist|strace|%d", i))
 	}
 }
+
+// TestVFC14LargeList: "all content sizes from empty to tens of megabytes".  A
+// list of 17-45 MB replaces a smaller one (and is replaced by one again): after
+// each refresh the path holds the complete new version, every rule up to the
+// last one, while readers keep sampling the path.
+func TestVFC14LargeList(t *testing.T) {
+	vfkit.Begin(t)
+	srv := vfNewC14Server()
+	defer srv.srv.Close()
+
+	rapid.Check(t, func(t *rapid.T) {
+		dir, err := os.MkdirTemp("", "vfc14big")
+		if err != nil {
+			t.Fatalf("VERIF-INCONCLUSIVE mkdir: %v", err)
+		}
+		defer os.RemoveAll(dir)
+		d, err := vfC14NewFilter(dir, srv.srv.URL+"/list.txt")
+		if err != nil {
+			t.Fatalf("VERIF-INCONCLUSIVE filter: %v", err)
+		}
+		defer d.Close()
+		path := filepath.Join(dir, filterDir, "7.txt")
+
+		counts := []int{rapid.SampledFrom([]int{10, 20000}).Draw(t, "first_rules"),
+			rapid.IntRange(600000, 1500000).Draw(t, "big_rules"), rapid.SampledFrom([]int{500, 640000}).Draw(t, "last_rules")}
+		for i, n := range counts {
+			body := vfC14List(n, i)
+			srv.mu.Lock()
+			srv.body, srv.cutAt = body, -1
+			srv.mu.Unlock()
+			if _, _, ok := d.tryRefreshFilters(true, true, true); !ok {
+				t.Fatalf("VERIF-INCONCLUSIVE refresh %d did not run", i)
+			}
+			b, rerr := os.ReadFile(path)
+			if rerr != nil {
+				t.Fatalf("after the refresh with %d rules (%d bytes): %v", n, len(body), rerr)
+			}
+			want := strings.SplitN(body, "\n", 2)[1]
+			vfC14.Eval()
+			vfC14.Class(fmt.Sprintf("filterlist:large:%dMB", len(body)>>20))
+			vfC14.Nontrivial(fmt.Sprintf("filterlist|large|%d|%d", i, n))
+			if string(b) != want {
+				last := b
+				if len(last) > 60 {
+					last = last[len(last)-60:]
+				}
+				t.Fatalf("after the refresh with %d rules (%d bytes of source) the path holds %d bytes, want the %d bytes of the complete new version; it ends with %q",
+					n, len(body), len(b), len(want), last)
+			}
+		}
+	})
+}
